@@ -263,5 +263,5 @@ class ProductDomain(Domain):
             return a_points.join(b_points)
         else:
             assert d is not None
-            n = int(d * self.volume(params, device=device))
+            n = self.compute_n_from_density(d, params)
             return self.sample_random_uniform(n=n, params=params, device=device)
